@@ -63,7 +63,13 @@ def block(n, mp, yld, one, staged, P, t=1500):
                       + ("it arrives first and is parked before the others are issued" if staged else "at any position of the arrival order") +
                       f") + 1 request on connection 2 (any tag), Maxpend={mp}, requests of connection 1 in {'one segment' if one else 'separate segments'}, "
                       f"implementation {'yields before answering' if yld else 'answers at once'}; all schedules with <= {P} preemptions; request data concrete (reads/writes told apart by offset)"}
-def fifo(g, mp, yld, one, P, t=1500):
+def fifo(g, mp, yld, one, P, t=1500, fsw=None):
+    r = fifo0(g, mp, yld, one, P, t)
+    if fsw is not None:
+        r["free_switches"] = fsw
+        r["bounds"] += f", <= {fsw} non-default choices at blocking points"
+    return r
+def fifo0(g, mp, yld, one, P, t=1500):
     return {"harness": "vxH08Fifo", "args": [str(g), str(mp), b(yld), b(one)], "files": F08, "preempt": P, "reach": ["done"], "timeout_s": t,
             "bounds": f"{g} requests sharing one symbolic tag + 1 request with another tag inserted at every position, Maxpend={mp}, {'one segment' if one else 'separate segments'}, "
                       f"implementation {'yields before answering' if yld else 'answers at once'}; all schedules with <= {P} preemptions; request data concrete (members told apart by offset)"}
@@ -77,7 +83,7 @@ q08 = [spawn(0), spawn(2), fifolate(0, 1), fifolate(2, 1), dispatcher(0, 1), dis
 q08 += [{"harness": "vxH08NoLockTwin", "args": [], "files": F08, "reach": ["twin"], "bounds": "twin: a call into the implementation made with a lock held is detected"}]
 q08 += [nolock(t, a, f) for t in TT for (a, f) in ((True, True), (False, False))]
 q08 += [block(2, 0, False, True, True, 1), block(2, 2, True, True, True, 0), block(2, 0, False, True, False, 0),
-        fifo(2, 0, False, False, 1), fifo(2, 2, True, False, 0)]
+        fifo(2, 0, False, False, 1), fifo(2, 2, True, False, 0), fifo(3, 0, False, True, 0), fifo(4, 0, False, True, 0, fsw=1), fifo(6, 2, False, True, 0, fsw=0)]
 t08 = list(q08) + [nolock(t, a, f) for t in TT for (a, f) in ((True, False), (False, True))]
 t08 += [block(3, 0, True, True, True, 0), block(3, 2, True, True, True, 0), block(2, 0, True, True, False, 0), block(2, 2, False, True, True, 1),
         block(2, 0, False, False, True, 1), block(3, 2, False, True, False, 0), block(3, 0, False, True, True, 1), block(2, 0, False, True, False, 1),
@@ -85,7 +91,7 @@ t08 += [block(3, 0, True, True, True, 0), block(3, 2, True, True, True, 0), bloc
 w("C08", {
  "quick": q08,
  "thorough": t08,
- "outside": ["more than 3 requests on the blocked connection, more than one request held blocked, more than one other connection", "tag groups of more than 3 requests",
+ "outside": ["more than 3 requests on the blocked connection, more than one request held blocked, more than one other connection", "tag groups of more than 3 requests under all schedules (groups of 4 and 6: default schedule plus at most one other choice)",
              "schedules needing more than the stated number of preemptions (quick: 1; the 3-request schedule harnesses run with 0 preemptions + yields inside the implementation)",
              "Tflush inside a tag group (C07)", "real TCP; the writer's behaviour on write errors (C11)"],
  "assumptions": [SCHED_ASSUME,
